@@ -13,6 +13,7 @@ Design (see DESIGN.md §9):
     `Fn::call`, and otherwise to the intrinsics (hand-written models of std functions, listed in
     INTRINSICS and reported in the evidence as trusted base).
 """
+import os
 import re
 import time
 
@@ -212,6 +213,69 @@ DISCR = {
 }
 
 
+_ENUMS = {}
+
+
+def crate_enum_discr(ty):
+    """variant -> discriminant for an enum declared in the repository (parsed from the source)"""
+    if not _ENUMS:
+        import glob
+        for p in glob.glob(os.path.join(REPO_ROOT[0], "src", "**", "*.rs"), recursive=True):
+            try:
+                txt = open(p).read()
+            except OSError:
+                continue
+            for m in re.finditer(r"\benum\s+(\w+)\s*(?:<[^>]*>)?\s*\{", txt):
+                i = m.end()
+                depth = 1
+                j = i
+                while j < len(txt) and depth:
+                    if txt[j] == "{":
+                        depth += 1
+                    elif txt[j] == "}":
+                        depth -= 1
+                    j += 1
+                body = txt[i:j - 1]
+                body = re.sub(r"//[^\n]*", "", body)
+                body = re.sub(r"#\[[^\]]*\]", "", body)
+                variants = {}
+                nxt = 0
+                ok = True
+                d = 0
+                cur = ""
+                items = []
+                for ch in body:
+                    if ch in "({[":
+                        d += 1
+                    elif ch in ")}]":
+                        d -= 1
+                    if ch == "," and d == 0:
+                        items.append(cur)
+                        cur = ""
+                    else:
+                        cur += ch
+                items.append(cur)
+                for it in items:
+                    it = it.strip()
+                    if not it:
+                        continue
+                    vm = re.match(r"(\w+)\s*(?:\(.*\)|\{.*\})?\s*(?:=\s*(.+))?$", it, re.S)
+                    if not vm:
+                        ok = False
+                        break
+                    if vm.group(2):
+                        try:
+                            nxt = int(vm.group(2).strip().replace("_", ""), 0)
+                        except ValueError:
+                            ok = False
+                            break
+                    variants[vm.group(1)] = nxt
+                    nxt += 1
+                if ok and variants:
+                    _ENUMS.setdefault(m.group(1), variants)
+    return _ENUMS.get(ty)
+
+
 def short_ty(path):
     """'std::option::Option::<usize>' -> 'Option'"""
     p = re.sub(r"::<.*$", "", path)
@@ -249,9 +313,65 @@ class Stats:
         self.max_depth = 0
 
 
+IMPL_RE = re.compile(r"<impl at ([^:>]+):(\d+):(\d+): (\d+):(\d+)>")
+_SRC_CACHE = {}
+REPO_ROOT = ["/repo"]
+
+
+def impl_info(name):
+    """(trait|None, self_type) of the impl block a MIR function name like `m::<impl at FILE:L:C: L:C>::f` belongs to,
+    read from the source text at that span."""
+    m = IMPL_RE.search(name)
+    if not m:
+        return None
+    key = m.group(0)
+    if key in _SRC_CACHE:
+        return _SRC_CACHE[key]
+    path = os.path.join(REPO_ROOT[0], m.group(1))
+    try:
+        lines = open(path).read().split("\n")
+    except OSError:
+        _SRC_CACHE[key] = None
+        return None
+    l0, c0, l1, c1 = (int(m.group(i)) for i in range(2, 6))
+    text = lines[l0 - 1][c0 - 1:] if l0 != l1 else lines[l0 - 1][c0 - 1:c1 - 1]
+    info = None
+    mm = re.match(r"impl\s*(?:<[^>]*>)?\s*(?:(.+?)\s+for\s+)?(.+)$", text.strip())
+    if mm:
+        tr = mm.group(1)
+        ty = mm.group(2)
+        info = (base_name(tr) if tr else None, base_name(ty))
+    else:
+        # derive(...) span: the trait name is the span text, the type is the next struct/enum declaration
+        tr = text.strip()
+        for k in range(l0 - 1, min(len(lines), l0 + 40)):
+            dm = re.match(r"\s*(?:pub(?:\([a-z]+\))?\s+)?(?:struct|enum)\s+(\w+)", lines[k])
+            if dm:
+                info = (base_name(tr), dm.group(1))
+                break
+    _SRC_CACHE[key] = info
+    return info
+
+
+def base_name(t):
+    """`std::fmt::Display` -> Display ; `Evr<'a>` -> Evr ; `&'a str` -> str ; `(&str, &str)` -> tuple"""
+    t = t.strip()
+    t = re.sub(r"^&\s*('\w+\s+)?(mut\s+)?", "", t)
+    if t.startswith("("):
+        return "tuple"
+    t = re.sub(r"<.*$", "", t)
+    return t.split("::")[-1].strip()
+
+
 class Exec:
     def __init__(self, funcs, intrinsics, max_steps=200000):
         self.funcs = funcs
+        self.by_method = {}
+        for name, fl in funcs.items():
+            if "<impl at " in name and "{closure" not in name:
+                meth = name.split("::")[-1]
+                for f in fl:
+                    self.by_method.setdefault(meth, []).append(f)
         self.intr = intrinsics
         self.max_steps = max_steps
         self.stats = Stats()
@@ -450,18 +570,43 @@ class Exec:
             cands = self.funcs[name]
             if len(cands) == 1:
                 return self.call_fn(cands[0], args)
+        # methods of the crate's own impl blocks: `<X as Trait>::m`, `Type::m`
+        m = re.match(r"^<(.*) as (.*)>::([A-Za-z_0-9]+)$", name)
+        if m:
+            selfn, traitn, meth = base_name(m.group(1)), base_name(m.group(2)), m.group(3)
+            f = self.find_impl(meth, traitn, selfn)
+            if f is None and traitn == "Into":
+                # blanket Into -> the crate's From impl for the target type
+                tgt = re.search(r"Into<(.*)>$", m.group(2))
+                if tgt:
+                    f = self.find_impl("from", "From", base_name(tgt.group(1)))
+            if f is not None:
+                return self.call_fn(f, args)
+        else:
+            parts = name.split("::")
+            if len(parts) >= 2:
+                f = self.find_impl(parts[-1], None, base_name(parts[-2]))
+                if f is not None:
+                    return self.call_fn(f, args)
         if name in self.intr:
             self.stats.intrinsics.add(name)
             return self.intr[name](self, args, func)
         # trait-qualified: dispatch on method name
-        m = re.match(r"^<(.*) as (.*)>::([A-Za-z_0-9]+)$", name)
         if m:
-            key = "<_ as %s>::%s" % (re.sub(r"<.*$", "", m.group(2)).split("::")[-1], m.group(3))
+            key = "<_ as %s>::%s" % (base_name(m.group(2)), m.group(3))
             if key in self.intr:
                 self.stats.intrinsics.add(key)
                 return self.intr[key](self, args, func)
         # tuple-struct / variant constructor functions such as `errors::Error::InvalidFileCaps`
         raise Unsupported("no model for call: " + func + "  [" + name + "]")
+
+    def find_impl(self, meth, traitn, selfn):
+        out = []
+        for f in self.by_method.get(meth, []):
+            info = impl_info(f.name)
+            if info and info[1] == selfn and (info[0] == traitn or (traitn is not None and info[0] is not None and info[0].endswith(traitn))):
+                out.append(f)
+        return out[0] if len(out) == 1 else None
 
     def call_closure(self, clo, args):
         f = self.closure_map.get(clo.name)
@@ -532,6 +677,17 @@ class Exec:
                 if cands:
                     break
         if not cands:
+            pm = re.match(r"^<(.*) as (.*)>::(\w+)::(promoted\[\d+\])$", name)
+            if pm:
+                f = self.find_impl(pm.group(3), base_name(pm.group(2)), base_name(pm.group(1)))
+                if f is not None:
+                    cands = self.funcs.get(f.name + "::" + pm.group(4))
+            pm = re.match(r"^(\w+)(?:::<.*>)?::(\w+)::(promoted\[\d+\])$", name) if not cands else None
+            if pm:
+                f = self.find_impl(pm.group(2), None, pm.group(1))
+                if f is not None:
+                    cands = self.funcs.get(f.name + "::" + pm.group(3))
+        if not cands:
             m = re.fullmatch(r"Option::<.*>::None", name)
             if m:
                 return NONE
@@ -553,7 +709,7 @@ class Exec:
         if k == "discriminant":
             v = self.read_place(frame, rv.place)
             if isinstance(v, Adt):
-                tbl = DISCR.get(v.ty)
+                tbl = DISCR.get(v.ty) or crate_enum_discr(v.ty)
                 if tbl is None or v.variant not in tbl:
                     raise Unsupported("discriminant of %s::%s" % (v.ty, v.variant))
                 return Int(tbl[v.variant] & ((1 << 64) - 1), "isize")
